@@ -3,7 +3,7 @@ prop(
     pkg="c09",
     title="rule{} match/ignore blocks select rules by their documented boolean meaning",
     technique="property-based testing (rapid): generated configurations x rule files x command x state against a reference "
-              "evaluator written from docs/configuration.md",
+              "evaluator written from docs/configuration.md; plus a real-binary layer that runs pint lint / ci / watch",
     level="exploration",
     design_ref="DESIGN.md 2/C09",
     needs_bin=True,
@@ -25,6 +25,11 @@ prop(
          "documented semantics that works from the generator's own model of the rules. Non-trivial: some rule block has a match and "
          "an ignore sub-block with >= 2 conditions each, and over the case at least one (rule, block, command, state) is selected "
          "and one rejected.",
+    rule_binary="TestPropBinaryCommands: 2-4 rule{} blocks whose match/ignore sub-blocks use command (plus kind / name) conditions, each "
+                "with an observable marker check (required label / required annotation / name / for), one rule file of 2-4 rules, run through "
+                "the real binary as `pint lint`, `pint ci` (tiny git repository) and `pint watch glob` (own loopback port, /metrics read once "
+                "the collector's pint_problems gauge appears); the marker problems per (rule, block) must match the reference evaluator for the "
+                "command the binary was started as. A disagreement must be observed twice; unobservable runs are inconclusive (counted).",
     level_text="Generated-input search (rapid, fixed seeds) against an independent reference evaluator of the documented "
                "match/ignore semantics. Says the selection agreed on N generated (configuration, rule files, 2-4 (command, state) pairs) "
                "cases, for every rule x rule block of the case; no proof of absence.",
